@@ -28,7 +28,7 @@ ASSUMPTIONS = [
 BOUNDS = {"quick": "<= 3 samples, max_data_age_in_periods in {1, 1.5, 2}, initial_buffer_len in {1, 2, 3}, two ticks",
           "thorough": "4 samples, ages {1, 1.5, 2, 3}, buffers {1, 2, 3, 4}"}
 OUTSIDE = "longer histories; periods other than 1 s; max_buffer_len/warn_buffer_len clamps"
-BUDGET = {"quick": 600, "thorough": 3000}
+BUDGET = {"quick": 600, "thorough": 1500}
 KF_ZERO = "C08-input-period-rounds-to-zero"
 
 
